@@ -21,10 +21,7 @@ def tlc_histories(ctx, maxlen):
         text = open(os.path.join(tmp, "d.dump")).read()
     finally:
         shutil.rmtree(tmp, ignore_errors=True)
-    hs = []
-    for m in re.finditer(r"^/\\ h = <<(.*?)>>\n(?=/\\|\n|$)", text, re.M | re.S):
-        evs = re.findall(r'\[a \|-> "(\w)", i \|-> (\d+), x \|-> "(\w*)"\]', m.group(1))
-        hs.append([{"a": a, "i": int(i), "x": x} for a, i, x in evs])
+    hs = core.parse_history_dump(text)
     return hs
 
 
